@@ -1,0 +1,38 @@
+//go:build verif
+// +build verif
+
+package quadtree
+
+import "github.com/paulmach/orb"
+
+// VerifWalk is a read-only projection of the node tree for the verification harness
+// (build tag verif only). fn is called for every node in pre-order with the child-index
+// path from the root, the node's value (nil for an emptied node) and the node's cell.
+func (q *Quadtree) VerifWalk(fn func(path []int, value orb.Pointer, cell orb.Bound)) {
+	if q.root == nil {
+		return
+	}
+	verifWalk(q.root, nil, q.bound.Min[0], q.bound.Max[0], q.bound.Min[1], q.bound.Max[1], fn)
+}
+
+func verifWalk(n *node, path []int, left, right, bottom, top float64, fn func([]int, orb.Pointer, orb.Bound)) {
+	fn(path, n.Value, orb.Bound{Min: orb.Point{left, bottom}, Max: orb.Point{right, top}})
+	cx, cy := (left+right)/2.0, (bottom+top)/2.0
+	for i, c := range n.Children {
+		if c == nil {
+			continue
+		}
+		l, r, b, t := left, right, bottom, top
+		if i >= 2 {
+			t = cy
+		} else {
+			b = cy
+		}
+		if i%2 == 1 {
+			l = cx
+		} else {
+			r = cx
+		}
+		verifWalk(c, append(append([]int(nil), path...), i), l, r, b, t, fn)
+	}
+}
